@@ -951,9 +951,7 @@ impl ASN1Value {
                 }
                 supertypes.push(e.identifier.clone());
                 if let ASN1Value::LinkedIntValue { integer_type, .. } = value.borrow_mut() {
-                    let int_type = e.constraints.iter().fold(IntegerType::Unbounded, |acc, c| {
-                        c.integer_constraints().max_restrictive(acc)
-                    });
+                    let int_type = Constraint::integer_type_of(&e.constraints);
                     *integer_type = int_type;
                 }
                 if let Some(ToplevelDefinition::Type(t)) = tlds.get(&e.identifier) {
@@ -1332,9 +1330,7 @@ impl ASN1Value {
                 if matches![**value, ASN1Value::Integer(_)] =>
             {
                 if let ASN1Value::Integer(v) = &**value {
-                    let int_type = i.constraints.iter().fold(IntegerType::Unbounded, |acc, c| {
-                        c.integer_constraints().max_restrictive(acc)
-                    });
+                    let int_type = Constraint::integer_type_of(&i.constraints);
                     **value = ASN1Value::LinkedIntValue {
                         integer_type: int_type,
                         value: *v,
@@ -1450,11 +1446,7 @@ impl ASN1Value {
                     Ok(Some(ASN1Value::LinkedNestedValue {
                         supertypes,
                         value: Box::new(ASN1Value::LinkedIntValue {
-                            integer_type: constraints
-                                .iter()
-                                .fold(IntegerType::Unbounded, |acc, c| {
-                                    c.integer_constraints().max_restrictive(acc)
-                                }),
+                            integer_type: Constraint::integer_type_of(constraints),
                             value: distinguished_value.value,
                         }),
                     }))
